@@ -1307,6 +1307,11 @@ class Interp:
             return K(True)
         return result
 
+    def ex_NamedExpr(self, e, fr):
+        v = self.eval(e.value, fr)
+        self.assign(e.target, v, fr)
+        return v
+
     def ex_IfExp(self, e, fr):
         if self.truth(self.eval(e.test, fr)):
             return self.eval(e.body, fr)
